@@ -1,7 +1,7 @@
 #!/bin/sh
 # run every registered quick (or $1=thorough) check sequentially, print one line each
 T=${1:-quick}
-cd /verif
+cd "$(dirname "$0")/.."
 for id in $(python3 -c "
 import json;print(' '.join(c['property_id'] for c in json.load(open('MANIFEST.json'))['checks']))"); do
   out=$(./check $id $T 2>&1); rc=$?
